@@ -5,21 +5,25 @@ import (
 	"strings"
 )
 
+func (vc *VC) findGhost(pkg *types.Package, name string) *GhostVar {
+	if pkg != nil {
+		if g := vc.eng.cs.Ghosts[pkg.Path()+"#"+name]; g != nil {
+			return g
+		}
+	}
+	for k, x := range vc.eng.cs.Ghosts {
+		if strings.HasSuffix(k, "#"+name) {
+			return x
+		}
+	}
+	return nil
+}
+
 // ghostHV returns the heap variable modelling a ghost package variable
 // declared with "//@ ghost var name type" (types: int, bool, bytes, ints).
 // Ghost variables live at reference nil of their own heap variable.
 func (vc *VC) ghostHV(pkg *types.Package, name string) (hv, sort string, t types.Type) {
-	var g *GhostVar
-	if pkg != nil {
-		g = vc.eng.cs.Ghosts[pkg.Path()+"#"+name]
-	}
-	if g == nil {
-		for k, x := range vc.eng.cs.Ghosts {
-			if strings.HasSuffix(k, "#"+name) {
-				g = x
-			}
-		}
-	}
+	g := vc.findGhost(pkg, name)
 	if g == nil {
 		return "", "", nil
 	}
@@ -28,7 +32,8 @@ func (vc *VC) ghostHV(pkg *types.Package, name string) (hv, sort string, t types
 		short = short[i+1:]
 	}
 	hv = "G_" + sanitize(short) + "_" + sanitize(name)
-	switch g.Type {
+	f := strings.Fields(g.Type)
+	switch f[0] {
 	case "int":
 		sort, t = vc.idxSort(), types.Typ[types.Int]
 	case "bool":
@@ -41,5 +46,22 @@ func (vc *VC) ghostHV(pkg *types.Package, name string) (hv, sort string, t types
 		unsup("ghost var %s: unsupported type %s", name, g.Type)
 	}
 	vc.regHeap(hv, sort, t)
+	// "ghost var n int range lo hi": an assumed invariant of the ghost variable
+	if len(f) == 4 && f[1] == "range" {
+		vc.ghostRange[hv] = [2]string{f[2], f[3]}
+	}
 	return
+}
+
+// mentionsPermission: does the expression mention a boolean ghost variable
+// (a permission)? Used in permission mode to select the preconditions that
+// remain proof obligations.
+func (vc *VC) mentionsPermission(sc *specCtx, e CExpr) bool {
+	names := map[string]bool{}
+	for _, g := range vc.eng.cs.Ghosts {
+		if strings.Fields(g.Type)[0] == "bool" {
+			names[g.Name] = true
+		}
+	}
+	return mentions(e, names)
 }
